@@ -269,7 +269,7 @@ func (s *SkipList[K, V]) Values() []V {
 }
 
 func (s *SkipList[K, V]) lazyInit() {
-	if s.head.next == nil {
+	if s.head.next == nil || s.rand == nil {
 		s.Init()
 	}
 }
